@@ -45,9 +45,8 @@ theorem leafOf_wf (s : St μ) : instrWf (leafOf s) = true := by
 theorem tmono_step (cfg : Cfg) (s : St μ) : s.t ≤ (step cfg s).t := by
   rw [step_eq]; exact tmono_execLeaf cfg _ (leafOf_wf s) s
 
-theorem rinv_step_partial [CellMem μ] (cfg : Cfg) (s : St μ) (hp : rangePending (leafOf s) = false)
-    (h : RInv s) : RInv (step cfg s) := by
-  rw [step_eq]; exact rinv_execLeaf_partial cfg _ (leafOf_wf s) hp s h
+theorem rinv_step [CellMem μ] (cfg : Cfg) (s : St μ) (h : RInv s) : RInv (step cfg s) := by
+  rw [step_eq]; exact rinv_execLeaf cfg _ (leafOf_wf s) s h
 
 /-- `n` consecutive steps -/
 def runN (cfg : Cfg) : Nat → St μ → St μ
@@ -64,5 +63,10 @@ theorem tmono_runN (cfg : Cfg) (n : Nat) (s : St μ) : s.t ≤ (runN cfg n s).t 
   induction n generalizing s with
   | zero => exact Int.le_refl _
   | succ n ih => simp only [runN]; exact Int.le_trans (tmono_step cfg s) (ih _)
+
+theorem rinv_runN [CellMem μ] (cfg : Cfg) (n : Nat) (s : St μ) (h : RInv s) : RInv (runN cfg n s) := by
+  induction n generalizing s with
+  | zero => exact h
+  | succ n ih => simp only [runN]; exact ih _ (rinv_step cfg s h)
 
 end Cmio
